@@ -23,7 +23,9 @@ RULE = (
     "broker call; exactly one terminal action succeeds. mode 'actor': an actor runs a seeded script of set_result / "
     "set_exception / add_callback / eager calls on its MessageDependency; afterwards the callbacks ran in registration order "
     "with the result store at the position of the latest set_result/set_exception, the marker behind the eager call was not "
-    "reached, exactly one terminal action was applied. non-trivial = a refusal or a post-use call occurred; distinct = digest."
+    "reached, exactly one terminal action was applied; in half of the actor runs the script is played by a dependency or "
+    "sub-dependency of the actor (next to a sibling dependency of seeded duration) and the actor body must stay out of it once "
+    "the response was given. non-trivial = a refusal or a post-use call occurred; distinct = digest."
 )
 SHRINK_LISTS = ("calls", "script")
 CALLS = ["ack", "nack", "reject", "reschedule", "retry", "force_retry"]
@@ -49,7 +51,8 @@ def gen(rng, broker, tier):
         else:
             script.append(["eager", rng.choice(CALLS)])
     return {"mode": "actor", "max": mx, "tried": tried, "script": script, "calls": [], "store_result": rng.random() < 0.8,
-            "by_s": rng.choice([None, None, 5]), "knobs": knobs}
+            "by_s": rng.choice([None, None, 5]), "knobs": knobs,
+            "where": rng.choice(["body", "body", "dependency", "sub-dependency"]), "sibling_us": rng.choice([0, 0, 2000, 300_000])}
 
 
 async def _queue_mode(sim, sc, out):
@@ -162,7 +165,9 @@ async def _actor_mode(sim, sc, out):
     script = sc["script"]
     log = []
 
-    async def body(jid, msg):
+    pending = [False]  # an eager response was started and neither refused nor (wrongly) intercepted
+
+    async def play(msg):
         rec.note("actor_start", "m")
         for op in script:
             if op[0] == "set_result":
@@ -189,24 +194,65 @@ async def _actor_mode(sim, sc, out):
                 log.append(("cb", tag))
             else:
                 log.append(("eager", op[1]))
+                pending[0] = True
                 try:
                     await getattr(msg, op[1])()
                 except ValueError:
+                    pending[0] = False
                     log.append(("eager-refused", op[1]))
                     continue
                 except Exception:  # noqa: BLE001
                     # defensive user code: a broad handler around the eager response must not intercept it
                     if not sc.get("broad_except", True):
                         raise
+                    pending[0] = False
                     rec.note("after_eager", "m")
                     log.append(("after-eager",))
                     continue
+                pending[0] = False
                 rec.note("after_eager", "m")
                 log.append(("after-eager",))
-        log.append(("body-end",))
-        return "done"
 
-    body.__annotations__ = {"jid": str, "msg": r.MessageDependency}
+    where = sc.get("where", "body")
+    if where == "body":
+        async def body(jid, msg):
+            await play(msg)
+            log.append(("body-end",))
+            return "done"
+
+        body.__annotations__ = {"jid": str, "msg": r.MessageDependency}
+    else:
+        # the script (the eager response included) is played by a dependency of the actor - a guard / deduplication / auth
+        # style provider - or by a dependency of that dependency, next to a slower sibling dependency; the actor's own body
+        # has to stay out of it once the response was given
+        from typing import Annotated, Any
+
+        async def guard(msg):
+            await play(msg)
+            return "guarded"
+
+        guard.__annotations__ = {"msg": r.MessageDependency}
+
+        async def outer(inner):
+            return inner
+
+        outer.__annotations__ = {"inner": Annotated[Any, r.Depends(guard)]}
+
+        async def sibling():
+            await asyncio.sleep(sc.get("sibling_us", 0) / 1e6)
+            return "sib"
+
+        async def body(jid, g, s):
+            if pending[0]:
+                rec.note("after_eager", "m")
+                log.append(("after-eager",))
+            elif g != "guarded" or s != "sib":
+                V.append(violation("dependency-value", f"C16/{b}/actor/dependency-value-wrong", g=repr(g)[:80], s=repr(s)[:80]))
+            log.append(("body-end",))
+            return "done"
+
+        body.__annotations__ = {"jid": str, "g": Annotated[Any, r.Depends(guard if where == "dependency" else outer)],
+                                "s": Annotated[Any, r.Depends(sibling)]}
     router = r.Router()
     router.actor(body, name="a", queue="q", retry_policy=workload.policy_from_spec({"kind": "table", "us": [3_600_000_000]}))
     j = {"id": "m", "name": "a", "queue": "q", "retries": sc["max"], "tried0": sc["tried"], "store_result": sc["store_result"],
